@@ -147,13 +147,13 @@ package utils
 //@ func convertInt
 //@   props C20 C12
 //@   requires srngesOK(ranges)
-//@   requires schema_ranges_are_set: forall(i, 0, len(minMaxs), minMaxs[i] != nil)
+//@   requires schema_ranges_are_set: forall(i, 0, len(minMaxs), minMaxs[i] != nil && minMaxs[i].Min != nil && minMaxs[i].Max != nil)
 //@   loop 0 invariant srngesOK(ranges)
 
 //@ func convertUint
 //@   props C20 C12
 //@   requires ranges == nil || urngesOK(ranges)
-//@   requires schema_ranges_are_set: forall(i, 0, len(minMaxs), minMaxs[i] != nil)
+//@   requires schema_ranges_are_set: forall(i, 0, len(minMaxs), minMaxs[i] != nil && minMaxs[i].Min != nil && minMaxs[i].Max != nil)
 //@   loop 0 invariant urngesOK(ranges)
 
 // ---------------------------------------------------------------------------
@@ -318,10 +318,49 @@ package utils
 // (magnitude 2^63, what "min" stands for in the range of an int64 type) included.
 //@ func ConvertSdcpbNumberToInt64
 //@   props C12 C20
+//@   requires the_number_is_there: mm != nil
 //@   modifies nothing
 //@   ensures the_signed_number [C12]: mm != nil && r1 == nil ==> r0 == ite(mm.Negative, 0 - mm.Value, mm.Value)
 //@   ensures everything_an_int64_holds_converts [C12]: mm != nil && ite(mm.Negative, mm.Value <= 9223372036854775808, mm.Value <= 9223372036854775807) ==> r1 == nil
 //@   ensures nothing_else_does [C12]: mm != nil && !ite(mm.Negative, mm.Value <= 9223372036854775808, mm.Value <= 9223372036854775807) ==> r1 != nil
+
+// C20: the leaf converters are reached through Convert only, which has looked at the type before it hands it on: the
+// type is there (proved at every call site in Convert), so none of them can fail on it
+//@ func ConvertInt8
+//@   props C20 C12
+//@   requires the_type_is_there: lst != nil
+//@ func ConvertInt16
+//@   props C20 C12
+//@   requires the_type_is_there: lst != nil
+//@ func ConvertInt32
+//@   props C20 C12
+//@   requires the_type_is_there: lst != nil
+//@ func ConvertInt64
+//@   props C20 C12
+//@   requires the_type_is_there: lst != nil
+//@ func ConvertUint8
+//@   props C20 C12
+//@   requires the_type_is_there: lst != nil
+//@ func ConvertUint16
+//@   props C20 C12
+//@   requires the_type_is_there: lst != nil
+//@ func ConvertUint32
+//@   props C20 C12
+//@   requires the_type_is_there: lst != nil
+//@ func ConvertUint64
+//@   props C20 C12
+//@   requires the_type_is_there: lst != nil
+//@ func ConvertEnumeration
+//@   props C20 C12
+//@   requires the_type_is_there: slt != nil
+//@   loop 0 invariant true
+
+//@ func ConvertSdcpbNumberToUint64
+//@   props C12 C20
+//@   modifies nothing
+//@   requires the_number_is_there: mm != nil
+//@   ensures the_unsigned_number [C12]: r1 == nil ==> r0 == mm.Value && !mm.Negative
+//@   ensures only_negative_numbers_are_refused [C12]: !mm.Negative ==> r1 == nil
 
 // C12: text of a string leaf from a device or an XML document: the length statement is checked against the number of
 // characters of the value
